@@ -372,7 +372,12 @@ func (s *shardSet) write(kind, typ, modelF, propF string, cases []string) {
 		fmt.Fprintf(&sb, "Definition cases : list %s :=\n  %s.\n", typ, coqfmt.List(typ, cases[i*s.shardSize:hi]))
 		fmt.Fprintf(&sb, "Definition M := Eval vm_compute in (bad %s cases).\n", modelF)
 		fmt.Fprintf(&sb, "Definition P := Eval vm_compute in (bad %s cases).\n", propF)
-		sb.WriteString("Print M.\nPrint P.\n")
+		if typ == "ecase" {
+			sb.WriteString("Definition A := Eval vm_compute in (bad ecase_absent_ok cases).\n")
+		} else {
+			sb.WriteString("Definition A := @nil N.\n")
+		}
+		sb.WriteString("Print M.\nPrint P.\nPrint A.\n")
 		name := fmt.Sprintf("%s_%03d.v", kind, i)
 		if err := os.WriteFile(filepath.Join(s.dir, name), []byte(sb.String()), 0o644); err != nil {
 			panic(err)
